@@ -209,11 +209,17 @@ def gen_case(rng, cid, focus=()):
     proto_e = gen_section(rng, eids, used_names, 'elemental') if has_el else None
     files = []
     for s in steps:
-        def fresh(p):
+        def fresh(p, reorder=False):
             tot = sum(n for _, n in p['vars'])
-            return {'vars': p['vars'], 'rows': [[i, [tok(gen_value(rng)) for _ in range(tot)]]
-                                                for i, _ in p['rows']]}
-        content = {'nodal': fresh(proto_n), 'elemental': fresh(proto_e) if proto_e else None}
+            ids_ = [i for i, _ in p['rows']]
+            if reorder:
+                # elemental rows are re-bound by id (C02_elemental_ids_row_order_free): every step may
+                # list them in its own order.  Nodal rows keep one order per directory (stated premise
+                # of C02_series_rows_on_their_ids; FrontISTR writes the same order in every step)
+                ids_ = store_order(rng, ids_)
+            return {'vars': p['vars'], 'rows': [[i, [tok(gen_value(rng)) for _ in range(tot)]] for i in ids_]}
+        content = {'nodal': fresh(proto_n),
+                   'elemental': fresh(proto_e, reorder=rng.random() < 0.5) if proto_e else None}
         files.append({'step': s, 'content': content, 'lines': py_render(c['layout'], content)})
     c['files'] = files          # in this (shuffled) order
     return c
